@@ -120,6 +120,14 @@ def build_cases(ctx):
     return cases, per_field
 
 
+def translate(ctx):
+    """regenerate Generated/ConfigFacts.lean (per scheme: the list handed to check_param_exist, the fields _parse_config reads);
+    `Props/C08: required_lists_are_source / missing_required_param_refused / reads_are_required` are re-checked against it"""
+    import os, common
+    from translate import config_facts
+    return config_facts.generate(common.REPO, os.path.join(common.LEAN, "SSEPyVerif", "Generated", "ConfigFacts.lean"))
+
+
 def correspond(ctx):
     res = Result()
     cases, per_field = build_cases(ctx)
